@@ -170,13 +170,30 @@ pub fn mod_n_from_hash(ha: &[u8]) -> U256 {
 
     let (sum1, carry1) = r[4].overflowing_add(z[3]);
     r[4] = sum1;
-    let t = z[4] + carry1 as u64;
+    let (t, carry_t) = z[4].overflowing_add(carry1 as u64);
     let (sum2, carry2) = r[5].overflowing_add(t);
     r[5] = sum2;
-    r[6] = u64::from(carry2);
+    r[6] = u64::from(carry2) + u64::from(carry_t);
 
+    // q = r[5..7] estimates floor(Ha / (N-1)) and may be too small by up to 2, so the remainder
+    // Ha - q * (N-1) is computed over 320 bits and corrected.
     r = u256_mul(&[r[5], r[6], 0, 0], &SM9_N_MINUS_ONE);
-    h = u256_sub(&[z[0], z[1], z[2], z[3]], &[r[0], r[1], r[2], r[3]]).0;
+    let mut t5 = [0u64; 5];
+    let mut borrow = false;
+    for i in 0..5 {
+        let (d1, b1) = z[i].overflowing_sub(r[i]);
+        let (d2, b2) = d1.overflowing_sub(borrow as u64);
+        t5[i] = d2;
+        borrow = b1 || b2;
+    }
+    for _ in 0..2 {
+        h = [t5[0], t5[1], t5[2], t5[3]];
+        if t5[4] != 0 || u256_cmp(&h, &SM9_N_MINUS_ONE) >= 0 {
+            let (d, b) = u256_sub(&h, &SM9_N_MINUS_ONE);
+            t5 = [d[0], d[1], d[2], d[3], t5[4].wrapping_sub(b as u64)];
+        }
+    }
+    h = [t5[0], t5[1], t5[2], t5[3]];
     h = mod_n_add(&h, &SM9_ONE);
     h
 }
